@@ -448,7 +448,12 @@ def rule_k(ctx):
     c07.rule_b(ctx)
     c07.rule_c(ctx)
 
+def rule_l(ctx):
+    from . import c04
+    c04.rule_a(ctx)
+
 RULES = [
+    ("C01.l", "the computations of one time are run to quiescence before the stepping call returns (before time can advance)", rule_l),
     ("C01.k", "every due action is pulled through the helper and executed once (alone or chained in a SeqFuture)", rule_k),
     ("C01.j", "time read + insert under one hold of the queue lock", rule_j),
     ("C01.a", "who may write the time", rule_a),
